@@ -139,8 +139,15 @@ class SigHarness:
         for isasync in (False, True):
             ns4 = {"D": self.D, "H": self, "ERRCLS": ns2["ERRCLS"]}
             exec(sig_source(sig, body, isasync), ns4)  # noqa
-            errf4 = eval("lambda {}: ({}, ERRCLS('e'))[1]".format(args, recs), ns4)
-            self.post_errf.append(ic.ensure(lambda result: False, error=errf4)(ns4["f"]))
+            # (the error factory also asks for OLD, which the condition does not name: the snapshots are captured all the same)
+            recs_old = " and ".join("H.rec('errf_old', {0}, getattr(OLD, 's{0}'))".format(i) for i in named) or "True"
+            # (without a snapshot there is no OLD to ask for)
+            errf4 = eval("lambda {}: ({} and {}, ERRCLS('e'))[1]".format(
+                ", ".join((["OLD"] if named else []) + ["p{}".format(i) for i in named]), recs, recs_old), ns4)
+            f4 = ic.ensure(lambda result: False, error=errf4)(ns4["f"])
+            for i in named:
+                f4 = ic.snapshot(eval("lambda p{0}: p{0}".format(i), ns4), name="s{}".format(i))(f4)
+            self.post_errf.append(f4)
         # f6: the contracts decorate a BOUND METHOD (self is bound already and is not a parameter any more)
         ns6 = {"D": self.D, "H": self}
         src6 = sig_source(sig, body).replace("def f(", "def f(self, ", 1)
@@ -293,6 +300,12 @@ def _replay_vectors(res: Any, vectors: List[dict], ic: Any) -> Dict[str, int]:
                     tagk, idx = v["vals"][i - 1]
                     want = pos4[idx - 1] if tagk == "P" else (kw4["p{}".format(idx)] if tagk == "K" else h.D[idx])
                     stats["values_compared"] += 1
+                    if h.seen.get(("errf_old", i)) is not want:
+                        res.violation("args.contract_seen",
+                                      "{} npos={} kws={}: the error factory of a postcondition of {} saw OLD.s{} = {!r}".format(
+                                          head, npos, kws, which, i, h.seen.get(("errf_old", i))),
+                                      {"signature": "args.contract_seen", "sig": sig, "npos": npos, "kws": kws,
+                                       "param": i, "role": "errf-post-old"})
                     if h.seen.get(("errf", i)) is not want:
                         res.violation("args.contract_seen",
                                       "{} npos={} kws={}: the error factory of a postcondition of {} saw {!r} for p{}".format(
